@@ -14,7 +14,7 @@ LEVEL = "exploration"
 TECHNIQUE = "exhaustive enumeration of the invalid-request classes (missing block size x argument tuples, all 256 opcode values, service-action integers, EXTENDED COPY key/code mutations, inconsistent TransportIDs) through constructors and through the facade over a recording target"
 RULE = ("block size 0 x {READ/WRITE(10,12,16), WRITE SAME(10,16), ATA PASS-THROUGH(12,16) with byte_block & t_type & t_length} x all argument "
         "tuples with at most 1 deviation, through the constructor and through the facade on both transports, the baseline tuple also after every sequence of 1-2 other calls through the same facade (INQUIRY, TEST UNIT READY, READ CAPACITY 10/16 answered with a real block length, MODE SENSE, REPORT LUNS, block size set and reset, an earlier refused call, a second facade with a block size over the same device object); all 256 opcode values into "
-        "init_cdb and three constructors; PERSISTENT RESERVE IN service actions -1..40 through the facade; EXTENDED COPY LID1/LID4 with each "
+        "init_cdb and three constructors; PERSISTENT RESERVE IN service actions -1..40 through the facade on the four shipped sets and on a caller-assigned set whose entry numbers them 10h-13h (known is what that entry lists); EXTENDED COPY LID1/LID4 with each "
         "unknown key in CSCD and segment descriptors, unknown / valid-unimplemented / implemented type codes, LU ID TYPE 0..3, unknown device "
         "types (as integers and as numeric text), codes given by name in the wrong field (before and after a valid use of the same names); TransportIDs over protocols x format flag x session id; opcode refusal (init_cdb, marshall_cdb, constructor) racing with a second thread that builds a valid TEST UNIT READY / READ(10) / READ(16): all schedules with at most 2 preemptions at every source line of the library. Every case also states whether it must be accepted, so that refusing "
         "valid input is reported too. Non-trivial = the request is invalid; distinct = distinct (kind, case).")
@@ -228,21 +228,34 @@ def run_case(case, obs=None):
         return v
     if kind == "prin":
         _, tr, st, sa = case
-        rig = harness.Rig(tr, F.SET_TO_TYPE[st])
+        rig = harness.Rig(tr, F.SET_TO_TYPE.get(st, 0))
+        known = (0, 1, 2, 3)
         try:
             s = rig.facade()
+            if st == "custom":
+                # a command set assigned by the caller whose PERSISTENT RESERVE IN entry numbers its service actions in its own way
+                # (a bridge with vendor numbering): known / unknown is what THAT entry lists
+                from pyscsi.pyscsi.scsi_opcode import OpCode
+                from pyscsi.utils.enum import Enum
+                rig.dev.opcodes = Enum({"INQUIRY": OpCode("INQUIRY", 0x12, {}), "TEST_UNIT_READY": OpCode("TEST_UNIT_READY", 0x00, {}),
+                                        "PERSISTENT_RESERVE_IN": OpCode("PERSISTENT_RESERVE_IN", 0x5E, {"READ_KEYS": 0x10, "READ_RESERVATION": 0x11,
+                                                                                                       "REPORT_CAPABILITIES": 0x12, "READ_FULL_STATUS": 0x13})})
+                known = (0x10, 0x11, 0x12, 0x13)
             n0 = len(rig.target.log)
             oc = outcome_of(lambda: s.persistentreservein(sa))
             sent = len(rig.target.log) - n0
+            cdbs = [r["cdb"] for r in rig.target.log[n0:]]
         finally:
             rig.close()
         if obs is not None:
             obs.append((oc[0], type(oc[1]).__name__, sent))
         where = "persistentreservein(%r) on %s/%s" % (sa, tr, st)
-        if sa in (0, 1, 2, 3):
+        if sa in known and type(sa) is int:
             v = expect_accept(oc, where, "prin")
             if sent != 1:
                 v.append(("prin/sent", "%s: %d commands sent" % (where, sent)))
+            elif cdbs[0][0] != 0x5E or (cdbs[0][1] & 0x1F) != sa:
+                v.append(("prin/cdb", "%s: CDB %s sent, expected 5Eh with service action %#x" % (where, cdbs[0].hex(), sa)))
             return v
         v = expect_refusal(oc, ["ValueError"], where, "prin")
         if sent:
@@ -456,7 +469,7 @@ def run_partition(part, tier, seed):
                 do(["opcode", target, v], nontrivial=T.cdb_length(v) is None)
     elif kind == "prin":
         for tr in ("sgio", "iscsi"):
-            for st in ("spc", "sbc", "ssc", "smc"):
+            for st in ("spc", "sbc", "ssc", "smc", "custom"):
                 for sa in list(range(-1, 41)) + [255, 256, 1 << 16, None, "0"]:
                     do(["prin", tr, st, sa], nontrivial=sa not in (0, 1, 2, 3))
     elif kind == "xcopy":
